@@ -592,6 +592,14 @@ class Executor(MatchMixin, ExprMixin):
                 r = self.assign_target(t, v, p, s)
                 if isinstance(r, Exc):
                     return [(p, Flow("raise", r))]
+                la = self.cur.local_asserts.get(t.id) if (self.cur and isinstance(t, ast.Name) and self.cur.local_asserts and getattr(self, "_inline_depth", 0) == 0) else None
+                if la:
+                    try:
+                        g = Tr(self.spec_eval(la, p))
+                    except Unsupported as u:
+                        self.vc(p, z3.BoolVal(False), "assert", f"after `{t.id} = ...`: `{la}` cannot be evaluated: {u}", s.lineno)
+                    else:
+                        self.vc(p, g, "assert", f"after `{t.id} = ...`: `{la}`", s.lineno)
         return self._after(self.eval(s.value, st), k)
 
     def s_AnnAssign(self, s, st):
